@@ -319,8 +319,12 @@ def strip_grouping(etext):
 class Ref:
     """Reference elaboration of a structured program (the OpenQASM 2 meaning)."""
 
-    def __init__(self, builtins):
+    def __init__(self, builtins, mode='tree'):
         self.builtins = builtins          # spelling -> (np, nv)
+        # 'tree': the meaning.  'stripped' / 'textual': what a reader computes that drops
+        # grouping parentheses / additionally splices actual values in as text (the two known
+        # expression defects) -- used only to NAME a disagreement, never to excuse it.
+        self.mode = mode
         self.qregs = []
         self.cregs = []
         self.defs = {}
@@ -342,6 +346,12 @@ class Ref:
             raise Bad()
         return [o + arg[1]]
 
+    def ev(self, e, env):
+        if self.mode == 'tree':
+            return e_eval(e, env)
+        src = toks_python(e_tokens(e, 1, random.Random(0), 0.0), True)
+        return py_value(src, env, textual=(self.mode == 'textual'))
+
     def inst(self, name, vals, loc):
         if name in self.defs:
             formals, qf, body = self.defs[name]
@@ -349,11 +359,11 @@ class Ref:
             ops = []
             for b in body:
                 if b[0] == 'call':
-                    sub = [e_eval(e, env) for e in b[2]]
+                    sub = [self.ev(e, env) for e in b[2]]
                     ops.append(self.inst(b[1], sub, [qf.index(x) for x in b[3]]))
                 elif b[0] == 'U':
                     ops.append(('G', 'U', (qf.index(b[2]),),
-                                tuple(e_eval(e, env) for e in b[1])))
+                                tuple(self.ev(e, env) for e in b[1])))
                 elif b[0] == 'CX':
                     ops.append(('G', 'CX', (qf.index(b[1]), qf.index(b[2])), ()))
             return ('B', len(qf), tuple(loc), ops)
@@ -370,10 +380,10 @@ class Ref:
                 self.defs[s[1]] = (s[2], s[3], s[4])
             elif k == 'call':
                 loc = [q for a in s[3] for q in self.flat(a)]
-                self.ops.append(self.inst(s[1], [e_eval(e, {}) for e in s[2]], loc))
+                self.ops.append(self.inst(s[1], [self.ev(e, {}) for e in s[2]], loc))
             elif k == 'U':
                 self.ops.append(('G', 'U', tuple(self.flat(s[2])),
-                                 tuple(e_eval(e, {}) for e in s[1])))
+                                 tuple(self.ev(e, {}) for e in s[1])))
             elif k == 'CX':
                 self.ops.append(('G', 'CX', tuple(self.flat(s[1]) + self.flat(s[2])), ()))
             elif k == 'barrier':
